@@ -3097,6 +3097,9 @@ func CreateCertificateRequest(rand io.Reader, template *CertificateRequest, priv
 	var attributes []pkix.AttributeTypeAndValueSET
 	attributes = append(attributes, template.Attributes...)
 
+	// appended reports whether the extensions went into an extensionRequest
+	// attribute that template.Attributes already had.
+	appended := false
 	if len(extensions) > 0 {
 		// specifiedExtensions contains all the extensions that we
 		// found specified via template.Attributes.
@@ -3130,7 +3133,6 @@ func CreateCertificateRequest(rand io.Reader, template *CertificateRequest, priv
 		}
 
 		// Append the extensions to an existing attribute if possible.
-		appended := false
 		for _, atvSet := range attributes {
 			if !atvSet.Type.Equal(oidExtensionRequest) || len(atvSet.Value) == 0 {
 				continue
@@ -3141,15 +3143,8 @@ func CreateCertificateRequest(rand io.Reader, template *CertificateRequest, priv
 			break
 		}
 
-		// Otherwise, add a new attribute for the extensions.
-		if !appended {
-			attributes = append(attributes, pkix.AttributeTypeAndValueSET{
-				Type: oidExtensionRequest,
-				Value: [][]pkix.AttributeTypeAndValue{
-					atvs,
-				},
-			})
-		}
+		// Otherwise a new attribute is added for the extensions below,
+		// once the other attributes are in raw form.
 	}
 
 	asn1Subject := template.RawSubject
@@ -3163,6 +3158,32 @@ func CreateCertificateRequest(rand io.Reader, template *CertificateRequest, priv
 	rawAttributes, err := newRawAttributes(attributes)
 	if err != nil {
 		return
+	}
+
+	// If not included in attributes, add a new attribute for the extensions.
+	// They are written as Extensions: unlike an AttributeTypeAndValue an
+	// Extension has a place for the critical flag.
+	if len(extensions) > 0 && !appended {
+		attr := struct {
+			Type  asn1.ObjectIdentifier
+			Value [][]pkix.Extension `asn1:"set"`
+		}{
+			Type:  oidExtensionRequest,
+			Value: [][]pkix.Extension{extensions},
+		}
+
+		var b []byte
+		b, err = asn1.Marshal(attr)
+		if err != nil {
+			return nil, errors.New("x509: failed to serialise extensions attribute: " + err.Error())
+		}
+
+		var rawValue asn1.RawValue
+		if _, err = asn1.Unmarshal(b, &rawValue); err != nil {
+			return nil, err
+		}
+
+		rawAttributes = append(rawAttributes, rawValue)
 	}
 
 	tbsCSR := tbsCertificateRequest{
